@@ -402,6 +402,9 @@ class StmtMixin(object):
         self.exec_block(st.body, env)
 
     def s_Try(self, st, env):
+        rw = self.try_as_membership_test(st, env)
+        if rw is not None:
+            return self.exec_stmt(rw, env)
         try:
             self.exec_block(st.body, env)
         except RaiseSignal as r:
@@ -418,6 +421,50 @@ class StmtMixin(object):
         finally:
             if st.finalbody:
                 self.exec_block(st.finalbody, env)
+
+    def try_as_membership_test(self, st, env):
+        """try: ... D[k] ...  except KeyError: H   with D a dictionary filled in a symbolic loop (its keys are not known
+        individually) is evaluated as   if k in D: ... D[k] ...  else: H   - the lookup is the only thing in the block
+        that can raise KeyError, and whether it does is exactly whether k is a key."""
+        if st.orelse or st.finalbody or len(st.handlers) != 1:
+            return None
+        h = st.handlers[0]
+        if h.type is None or isinstance(h.type, ast.Tuple):
+            return None
+        tn = ast.unparse(h.type).split(".")[-1]
+        if tn not in ("KeyError", "LookupError"):
+            return None
+        if h.name and any(isinstance(n, ast.Name) and n.id == h.name for b in h.body for n in ast.walk(b)):
+            return None
+        subs = []
+        for b in st.body:
+            for n in ast.walk(b):
+                if isinstance(n, ast.Subscript) and isinstance(n.ctx, ast.Load) and not isinstance(n.slice, ast.Slice) \
+                        and isinstance(n.value, (ast.Name, ast.Attribute)):
+                    subs.append(n)
+                if isinstance(n, (ast.Raise, ast.Call)) and not (isinstance(n, ast.Call) and False):
+                    if isinstance(n, ast.Raise):
+                        return None
+        hits = []
+        for n in subs:
+            try:
+                base = self.eval(n.value, env)
+            except AnalysisError:
+                return None
+            if isinstance(base, LoopDictV):
+                hits.append(n)
+        if len(hits) != 1:
+            return None
+        # the key expression must be evaluable before the block (names / attributes / constants / tuples of those)
+        k = hits[0].slice
+        if not all(isinstance(x, (ast.Name, ast.Attribute, ast.Constant, ast.Tuple, ast.Load, ast.Subscript)) for x in ast.walk(k)):
+            return None
+        test = ast.Compare(left=k, ops=[ast.In()], comparators=[hits[0].value])
+        new = ast.If(test=test, body=st.body, orelse=h.body)
+        ast.copy_location(new, st)
+        ast.copy_location(test, st)
+        ast.fix_missing_locations(new)
+        return new
 
     def handler_matches(self, h, exc, env):
         if h.type is None:
